@@ -4,6 +4,7 @@ of /repo and require the property's check to report a VIOLATION.
 
 usage: selftest.py [--tier quick] [patch-name ...]      (default: all patches)
 Patch files: selftest/patches/<PROP>-<name>.diff (git apply format, relative to repo root).
+selftest/benign/*.diff are changes that do NOT break the property: the check must stay quiet on them.
 """
 import argparse
 import glob
@@ -31,6 +32,8 @@ def run_one(patch, tier):
         env = dict(os.environ, VERIF_REPO=dst, VERIF_TIER=tier, VERIF_EVIDENCE_DIR=os.path.join(tmp, "ev"))
         r = subprocess.run([os.path.join(VERIF, "check"), prop], env=env, capture_output=True, text=True)
         fired = "VIOLATION property=%s" % prop in r.stdout
+        if os.sep + "benign" + os.sep in patch:
+            return prop, ("QUIET" if not fired and r.returncode == 0 else "FALSE-ALARM rc=%d" % r.returncode), r.stdout[-1500:] + r.stderr[-1500:]
         return prop, ("CAUGHT" if fired and r.returncode == 1 else "MISSED rc=%d" % r.returncode), r.stdout[-1500:] + r.stderr[-1500:]
     finally:
         shutil.rmtree(tmp, ignore_errors=True)
@@ -42,16 +45,16 @@ def main():
     ap.add_argument("-v", action="store_true")
     ap.add_argument("names", nargs="*")
     a = ap.parse_args()
-    patches = sorted(glob.glob(os.path.join(HERE, "patches", "*.diff")))
+    patches = sorted(glob.glob(os.path.join(HERE, "patches", "*.diff"))) + sorted(glob.glob(os.path.join(HERE, "benign", "*.diff")))
     if a.names:
         patches = [p for p in patches if any(n in os.path.basename(p) for n in a.names)]
     bad = 0
     for p in patches:
         prop, verdict, out = run_one(p, a.tier)
         print("%-40s %s" % (os.path.basename(p), verdict))
-        if a.v or verdict != "CAUGHT":
+        if a.v or verdict not in ("CAUGHT", "QUIET"):
             print(out)
-        bad += verdict != "CAUGHT"
+        bad += verdict not in ("CAUGHT", "QUIET")
     sys.exit(1 if bad else 0)
 
 
